@@ -63,7 +63,7 @@ var extTable = map[string]extEff{
 	"(*github.com/valyala/fastjson.Value).GetStringBytes": {alias: []int{0}}, "(*github.com/valyala/fastjson.Value).Object": {alias: []int{0}},
 	"(*github.com/valyala/fastjson.Value).GetObject": {alias: []int{0}}, "(*github.com/valyala/fastjson.Value).StringBytes": {alias: []int{0}},
 	"(*github.com/valyala/fastjson.Object).Visit": {calls: 1},
-	"(reflect.Value).Convert":                      {alias: []int{0}}, "(reflect.Value).Interface": {alias: []int{0}}, "reflect.ValueOf": {alias: []int{0}},
+	"(reflect.Value).Convert":                     {alias: []int{0}}, "(reflect.Value).Interface": {alias: []int{0}}, "reflect.ValueOf": {alias: []int{0}},
 	"(*time.Time).GobDecode": {writes: []int{0}}, "(*time.Time).UnmarshalText": {writes: []int{0}}, "(*time.Time).UnmarshalJSON": {writes: []int{0}}, "(*time.Time).UnmarshalBinary": {writes: []int{0}},
 	"fmt.Fprintf": {writes: []int{0}}, "fmt.Fprint": {writes: []int{0}}, "fmt.Fprintln": {writes: []int{0}}, "io.WriteString": {writes: []int{0}},
 	"git.sr.ht/~mariusor/go-xsd-duration.Unmarshal": {writes: []int{1}},
